@@ -111,5 +111,64 @@ Section EqKSWIN.
       kswin_step c (to_model s)
         (v, choice (older (kw_test c) (lastn (Z.to_nat (kw_min c)) (g_win s ++ [v]))) (kw_test c)).
   Proof. intros c alpha s v Hks. unfold to_model, g_step, kswin_step. cbn [kn kwin kdrift g_n g_win g_drift]. rewrite Hks. reflexivity. Qed.
+
+  (** the whole run through the model: the operations the model is fed are the stream's values paired with the oracle's draws *)
+  Fixpoint kops_from (n test : Z) (w : list (num A)) (vs : list (num A)) : list (op (num A * list (num A))) :=
+    match vs with
+    | [] => []
+    | v :: r => let w' := lastn (Z.to_nat n) (w ++ [v]) in Upd (v, choice (older test w') test) :: kops_from n test w' r
+    end.
+
+  Lemma g_run_model : forall (c : kswin_cfg) alpha vs s,
+    (forall smp r, leb (snd (ks smp r)) alpha = ks_p_le smp r (kw_alpha_num c) (kw_alpha_den c)) ->
+    to_model (fold_left (g_step (kw_min c) alpha (kw_test c)) vs s) =
+      exec_from (KSWIND A) c (to_model s) (kops_from (kw_min c) (kw_test c) (g_win s) vs).
+  Proof.
+    intros c alpha vs. induction vs as [|v r IH]; intros s Hks; [reflexivity|].
+    cbn [fold_left kops_from]. rewrite (IH _ Hks). rewrite (g_step_model c alpha s v Hks). reflexivity.
+  Qed.
 End EqKSWIN.
 Print Assumptions src_kswin_window.
+
+(** C01's constant-stream clause over the generated KSWIN (over R): if the p-value oracle decides like the exact KS
+    p-value and the draw oracle returns [num_test_instances] of the values it was offered, then on a constant stream the
+    generated detector never reports drift, for every accepted alpha in (0, 1) given as a rational *)
+From Coq Require Import Reals.
+From FV Require Import RealA ConstantR.
+Theorem src_kswin_constant : forall (ks : list R -> list R -> R * R) (choice : list R -> Z -> list R)
+    (c : kswin_cfg) (alpha k : R) (s0 : kst (A:=RealA)) (n : nat),
+  (0 < kw_alpha_num c)%Z -> (kw_alpha_num c < kw_alpha_den c)%Z -> (1 <= kw_test c)%Z -> (2 * kw_test c <= kw_min c)%Z ->
+  (forall smp r, @NumSys.leb RealA (snd (ks smp r)) alpha = ks_p_le (A:=RealA) smp r (kw_alpha_num c) (kw_alpha_den c)) ->
+  (forall l, Forall (fun x => x = k) l -> length (choice l (kw_test c)) = Z.to_nat (kw_test c) /\ Forall (fun x => x = k) (choice l (kw_test c))) ->
+  match KSWIN_reset (ksw_t (kw_min c) alpha (kw_test c) s0) with
+  | Ok (s1, _) => exists w, g_run (KSWIN__update ks choice) s1 (repeat k n) = Ok ((kw_min c, alpha, kw_test c), Z.of_nat n, false, w)
+  | Raise _ => False
+  end.
+Proof.
+  intros ks choice c alpha k s0 n Hnum Hden Ht Hn Hks Hch.
+  assert (G : forall m w, Forall (fun x => x = k) w ->
+    Forall (fun o => o = Rst \/ exists sample, o = Upd (k, sample) /\
+              (sample = [] \/ (length sample = Z.to_nat (kw_test c) /\ Forall (fun x => x = k) sample)))
+           (kops_from choice (kw_min c) (kw_test c) w (repeat k m))).
+  { induction m as [|m IH]; intros w Hw0; cbn [repeat kops_from]; [constructor|].
+    assert (Hw1 : Forall (fun x => x = k) (lastn (Z.to_nat (kw_min c)) (w ++ [k]))).
+    { unfold lastn. apply Forall_forall. intros x Hx.
+      assert (Hin : In x (w ++ [k])) by (rewrite <- (firstn_skipn (length (w ++ [k]) - Z.to_nat (kw_min c)) (w ++ [k])); apply in_or_app; right; exact Hx).
+      apply in_app_or in Hin. destruct Hin as [Hin|[<-|[]]]; [|reflexivity]. rewrite Forall_forall in Hw0. apply Hw0. exact Hin. }
+    constructor; [|apply IH; exact Hw1].
+    right. eexists. split; [reflexivity|]. right.
+    apply Hch. unfold older. apply Forall_forall. intros x Hx. rewrite Forall_forall in Hw1. apply Hw1.
+    rewrite <- (firstn_skipn (length (lastn (Z.to_nat (kw_min c)) (w ++ [k])) - Z.to_nat (kw_test c)) (lastn (Z.to_nat (kw_min c)) (w ++ [k]))). apply in_or_app. left. exact Hx. }
+  rewrite KSWIN_reset_eq. cbv beta iota. fold (g_init (A:=RealA)).
+  rewrite (g_kswin_run_eq ks choice (kw_min c) alpha (kw_test c) (repeat k n) g_init Ht Hn ltac:(cbn; lia)).
+  fold (g_krun ks choice (kw_min c) alpha (kw_test c) (repeat k n)).
+  destruct (g_krun_fields ks choice (kw_min c) alpha (kw_test c) (repeat k n)) as [Hk Hw].
+  assert (Hd : g_drift (g_krun ks choice (kw_min c) alpha (kw_test c) (repeat k n)) = false).
+  { pose proof (g_run_model ks choice c alpha (repeat k n) g_init Hks) as Hm. fold (g_krun ks choice (kw_min c) alpha (kw_test c) (repeat k n)) in Hm.
+    change (g_drift (g_krun ks choice (kw_min c) alpha (kw_test c) (repeat k n))) with (kdrift (to_model (g_krun ks choice (kw_min c) alpha (kw_test c) (repeat k n)))).
+    rewrite Hm. change (to_model g_init) with (kswin_init (A:=RealA) c). change (exec_from (KSWIND RealA) c (kswin_init c)) with (exec (KSWIND RealA) c).
+    apply (kswin_constant c k); try assumption.
+    cbn [g_win g_init]. apply G. constructor. }
+  unfold ksw_t. rewrite Hk, Hd, repeat_length. eexists. reflexivity.
+Qed.
+Print Assumptions src_kswin_constant.
